@@ -15,7 +15,7 @@
    Answer: column 1 = "T|F <transcript of the shared-buffer run>" (flag = equals the fresh-buffer run),
            column 2 = "T <transcript of the fresh-buffer run>" (what C10 demands),
            column 3 = known-finding key or "-". *)
-From PV Require Import Base.Text Model.Alias.
+From PV Require Import Base.Text Model.Alias Model.AliasHunt.
 Open Scope string_scope.
 Open Scope N_scope.
 
@@ -131,8 +131,37 @@ Definition run_case (fill stp : N) (ops : list pop) : string :=
   let tb := show_tr (transcript std_cfg (fresh_run 0 ops)) in
   out3 (show_bool (String.eqb ta tb) ++ " " ++ ta) ("T " ++ tb) "-".
 
+(* k6 FILL STP OP..   hunt list of the ICMPv6 spoofer: s:<frame> = StartHunt(frame.SrcAddr) on a received frame,
+   t:<mac> = StopHunt of an owned MAC.  Observation: "T|F <running hunts, shared-buffer run>" *)
+Definition parse_hop (t : string) : option hop :=
+  match split ":"%char t with
+  | [k; a] =>
+      if String.eqb k "s" then option_map HStart (bytes_of_tok a)
+      else if String.eqb k "t" then option_map HStop (bytes_of_tok a)
+      else None
+  | _ => None
+  end.
+
+Definition KEY_HUNT6 : string := "c10-hunt6-starthunt-addr-alias".
+
+Definition run_hunt (fill stp : N) (ops : list hop) : string :=
+  let scr := fun _ : nat => {| b_pre := []; b_fill := fill; b_stp := stp |} in
+  let a := running hunt6_copies (hshared scr 0 ops) in
+  let b := running hunt6_copies (hfresh 0 ops) in
+  out3 (show_bool (Nat.eqb a b) ++ " " ++ dec_of_nat a) ("T " ++ dec_of_nat b)
+       (if negb hunt6_copies && known_C10_hunt6 ops then KEY_HUNT6 else "-").
+
 Definition dispatch (kind : string) (args : list string) : string :=
-  if String.eqb kind "h" then
+  if String.eqb kind "k6" then
+    match args with
+    | f :: s :: ops =>
+        match N_of_dec f, N_of_dec s, opt_all (map parse_hop ops) with
+        | Some fill, Some stp, Some l => run_hunt fill stp l
+        | _, _, _ => BADARGS
+        end
+    | _ => BADARGS
+    end
+  else if String.eqb kind "h" then
     match args with
     | f :: s :: ops =>
         match N_of_dec f, N_of_dec s, opt_all (map parse_op ops) with
